@@ -800,6 +800,24 @@ func (e *bEngine) runPath(st *bState, work *[]*bState, atReturn func(st *bState,
 			fr.vals[x] = t[x.Index]
 		case *ssa.Slice:
 			v := e.get(st, fr, x.X)
+			if pv, ok := v.(bPtr); ok && pv.obj != 0 {
+				if at, isArr := deref(x.X.Type()).Underlying().(*types.Array); isArr && (pv.path != "" || !e.obj(st, pv.obj).arr) {
+					// a[lo:hi] of an array that is a FIELD of a struct: a view of hi-lo elements whose contents
+					// are not related to the array's (element contents are not tracked through such views)
+					e.note("slicing an array field yields a view whose elements are unrelated to the array's (contents not tracked)")
+					lo, hi := ConstI(0), ConstI(at.Len())
+					if x.Low != nil {
+						lo, _ = asScalar(e.get(st, fr, x.Low))
+					}
+					if x.High != nil {
+						hi, _ = asScalar(e.get(st, fr, x.High))
+					}
+					st.nextID++
+					st.objs[st.nextID] = &bObject{id: st.nextID, typ: at.Elem(), arr: true, elems: map[string]bVal{}, sym: e.freshName("view")}
+					fr.vals[x] = bSlice{arr: st.nextID, len: st.norm(Sub(hi, lo)), cap: st.norm(Sub(ConstI(at.Len()), lo))}
+					break
+				}
+			}
 			if x.Low != nil {
 				if lo, ok := asScalar(e.get(st, fr, x.Low)); !ok || !st.norm(lo).IsConst() || st.norm(lo).Val.Sign() != 0 {
 					// s[lo:hi] with lo != 0: a view of hi-lo elements whose contents are not related to
@@ -1122,6 +1140,13 @@ func (e *bEngine) doCall(st *bState, fr *bFrame, ci ssa.CallInstruction) {
 	if c.IsInvoke() {
 		recv := e.get(st, fr, c.Value)
 		iv, _ := recv.(*bIface)
+		if iv != nil && iv.isNil {
+			// a method call on a nil interface value panics
+			if e.nilsafe {
+				e.oblige(st, "nil-deref", "nil-interface-call."+c.Method.Name(), TFalse, at)
+			}
+			panic(bPathEnd{"method call on a nil interface"})
+		}
 		if iv != nil && iv.dyn != nil {
 			ms := e.fp.prog.MethodSets.MethodSet(iv.dyn)
 			if sel := ms.Lookup(c.Method.Pkg(), c.Method.Name()); sel != nil {
